@@ -38,6 +38,7 @@
 #include <string>
 #include <thread>
 #include <unordered_map>
+#include <unordered_set>
 #include <utility>
 #include <vector>
 
@@ -1023,6 +1024,15 @@ private:
 
   void handleFdEvent(int fd, std::uint32_t events)
   {
+    // Stale event: this fd was closed earlier while the CURRENT epoll batch was being
+    // dispatched (e.g. a Close command processed on the eventfd entry). The number may
+    // already have been reused by a session created in the same batch (doConnect), and
+    // the harvested event mask (say EPOLLHUP|EPOLLERR of a reset connection) still
+    // describes the OLD socket — delivering it would close the new, healthy session with
+    // a bogus PeerClosed. The new registration reports its own readiness on the next
+    // epoll_wait, so nothing is lost by skipping.
+    if (_fdsClosedThisBatch.count(fd) != 0)
+      return;
     auto it = _fdTags.find(fd);
     if (it == _fdTags.end())
       return;
@@ -1149,6 +1159,7 @@ private:
         continue;
       }
       _atomicStats.epollWakeups++;
+      _fdsClosedThisBatch.clear(); // new batch harvested: nothing in it is stale yet
 
       for (int i = 0; i < n; ++i)
       {
@@ -1180,6 +1191,7 @@ private:
     {
       try
       {
+        _fdsClosedThisBatch.clear(); // one epoll_wait per call: new batch
         _batchProcessor->processBatchWithSpecialFDs(
           _epollFd, _eventFd, _timerFd,
           // generalHandler — handles session/listener fds
@@ -2417,6 +2429,7 @@ private:
     }
 
     ::close(fd);
+    _fdsClosedThisBatch.insert(fd); // events still queued for this number are stale
 
     _atomicStats.closed++;
     _atomicStats.sessionsCurrent--;
@@ -2434,6 +2447,7 @@ private:
   {
     delEpoll(lst->fd);
     ::close(lst->fd);
+    _fdsClosedThisBatch.insert(lst->fd);
     auto it = _fdTags.find(lst->fd);
     if (it != _fdTags.end())
     {
@@ -2877,6 +2891,9 @@ private:
   std::unordered_map<ListenerId, std::unique_ptr<Listener>> _listeners;
   std::unordered_map<SessionId, std::unique_ptr<Session>> _sessions;
   std::unordered_map<int, std::unique_ptr<Tag>> _fdTags;
+  // fds closed while the current epoll batch is being dispatched (I/O thread only);
+  // cleared whenever a new batch is harvested. See handleFdEvent().
+  std::unordered_set<int> _fdsClosedThisBatch;
 
   std::atomic<SessionId> _nextSessionId{1};
   std::atomic<ListenerId> _nextListenerId{1};
